@@ -166,6 +166,8 @@ class Interp:
 
     def call_pamqp(self, fn, args, kwargs):
         q = qualname(fn)
+        if q in self.inline and self.depth > 0:
+            return self.run_body(fn, args, kwargs)       # verified as part of the caller (listed in evidence)
         if self.registry is not None:
             c = self.registry.lookup(fn, args)
             if c is not None and not (self.top is not None and self.top[0] is fn and self.depth == 0):
@@ -872,7 +874,7 @@ class Interp:
             if name == 'args':
                 return obj.args
             raise OutOfSubset('attribute %s of exception' % name)
-        if sym.is_symbolic(obj):
+        if sym.is_symbolic(obj) and not isinstance(obj, (list, tuple, dict)):
             return self.lib.sym_getattr(obj, name, default, has_default)
         try:
             return getattr(obj, name)
